@@ -131,7 +131,7 @@ def _reply_params(tier):
     return out
 
 
-@harness(P, per_job=True, params=_reply_params, raises=(ValueError,), bounds="reply side: decrypted stub of length 16..47 (quick) / 16..63 (thorough) whose last `pad` bytes (0..15) are the declared auth padding: "
+@harness(P, per_job=True, params=_reply_params, raises=(ValueError,), bounds="reply side: decrypted stub of length 16..47 (quick) / 16..63 (thorough) whose last `pad` bytes (0..15) are the declared auth padding, with any (advisory) alloc_hint: "
          "GetKey.unpack_response must see exactly the stub minus pad bytes (observed through the HRESULT and length fields it reads)", must_reach=("exactly pad_length bytes stripped",))
 def reply_padding(c, L, pad):
     seen = {}
@@ -144,7 +144,7 @@ def reply_padding(c, L, pad):
     stub = c.bytes("stub", L)
     tr = _pdu.SecTrailer(_pdu.SecurityProvider.RPC_C_AUTHN_WINNT, _pdu.AuthenticationLevel.RPC_C_AUTHN_LEVEL_PKT_PRIVACY, c.int("padfield", 0, 255), 0, b"\x00" * 16)
     c.assume(tr.pad_length == pad)
-    resp = _request.Response(_pdu.PDUHeader(5, 0, _pdu.PacketType.RESPONSE, _pdu.PacketFlags(3), _pdu.DataRep(), 0, 16, 1), tr, L, 0, 0, stub)
+    resp = _request.Response(_pdu.PDUHeader(5, 0, _pdu.PacketType.RESPONSE, _pdu.PacketFlags(3), _pdu.DataRep(), 0, 16, 1), tr, c.int("alloc_hint", 0, (1 << 32) - 1), 0, 0, stub)
     c.stubs([(real.__func__, spy)])
     try:
         c.call(_client._process_get_key_result, resp)
@@ -195,3 +195,21 @@ def framing_symlen(c, vt, sig, sign):
 
     c.check(_all([x if isinstance(x, (bool, V.SymBool)) else bool(x) for x in conds]), "symbolic length: framing arithmetic")
     return True
+
+
+@harness(P, per_job=True, params=[dict(L=L, vt=v, sign=g) for L in (0, 5, 16) for v in (False, True) for g in (True, False)], raises=(Exception,),
+         bounds="a security provider without IOV support (wrap_iov refuses; only a data-only sealing primitive exists), stub lengths {0,5,16}, verification trailer on/off, header "
+         "signing on/off: either nothing is sent (any error), or header and trailer were protected as header signing requires", must_reach=("no IOV: refused or protected",))
+def framing_no_iov(c, L, vt, sign):
+    ctx = secctx.IdealContext(c, 16)
+    ctx.iov = False
+    auth = secctx.provider(ctx)
+    client = rc.RpcClient(auth)
+    client._sign_header = sign
+    stub = c.bytes("stub", L)
+    c.reach("no IOV: refused or protected")
+    req, off = c.call(client._create_request, 7, 0, stub, verification_trailer=VT if vt else None)
+    wire = c.call(client._prepare_pdu, req, off)
+    (call,) = ctx.wrap_calls
+    c.check(not sign or len(call["bufs"]) == 4, "no IOV: with header signing on, header and trailer went through the security context")
+    return "sent"
